@@ -1,6 +1,7 @@
 SPECIFICATION Spec
 CONSTANTS MaxN = 4
  Fillers = {0, 1, 121, 122, 123, 124, 125, 126, 127, 128}
+ Consts = {0}
 INVARIANT WidthSafe
 INVARIANT Decided
 INVARIANT NoLivelock
